@@ -227,6 +227,96 @@ fn error_site(bytes: &[u8]) -> String {
     }
 }
 
+/// Second set of hand-built hostile messages (boundary arithmetic of the primitive-vector path, long chains in
+/// the type table). Returns (bytes, family, the kind of target it is aimed at).
+fn crafted2(rng: &mut Rng) -> (Vec<u8>, &'static str, u8) {
+    use crate::model::leb::{leb_u64, sleb_i64};
+    let msg = |table: &[Vec<u8>], args: &[i64], values: &[u8]| -> Vec<u8> {
+        let mut m = b"DIDL".to_vec();
+        m.extend(leb_u64(table.len() as u64));
+        for t in table {
+            m.extend(t);
+        }
+        m.extend(leb_u64(args.len() as u64));
+        for a in args {
+            m.extend(sleb_i64(*a));
+        }
+        m.extend(values);
+        m
+    };
+    match rng.below(3) {
+        0 => {
+            // vec of a fixed-width primitive whose byte length sits at a wrap-around boundary of 2^64 (or 2^63)
+            let (code, size): (i64, u64) = *rng.pick(&[(-5, 1), (-9, 1), (-2, 1), (-6, 2), (-10, 2), (-7, 4), (-11, 4), (-13, 4), (-8, 8), (-12, 8), (-14, 8)]);
+            let top = if rng.chance(3, 4) { u64::MAX } else { (1u64 << 63) - 1 };
+            let q = top / size;
+            let len = match rng.below(6) {
+                0 => q,
+                1 => q + 1,
+                2 => q.saturating_sub(rng.below(4)),
+                3 => q - rng.below(64),
+                4 => (top - rng.below(4096)) / size,
+                _ => q / 3 + rng.below(5),
+            };
+            let t = [vec![0x6d], sleb_i64(code)].concat();
+            let mut v = leb_u64(len);
+            v.extend({
+                let n = rng.usize(40);
+                rng.bytes(n)
+            });
+            // sometimes wrapped in an option / record so that the vector is not the first value
+            if rng.chance(1, 4) {
+                let t1 = vec![0x6e, 0x00];
+                let mut vv = vec![1u8];
+                vv.extend(v);
+                (msg(&[t, t1], &[1], &vv), "primvec-boundary", 0)
+            } else {
+                (msg(&[t], &[0], &v), "primvec-boundary", 0)
+            }
+        }
+        1 => {
+            // a chain through the whole type table: entry i refers to entry i+1
+            let n = *rng.pick(&[50usize, 500, 3000, 9_998, 9_999, 10_000]);
+            let kind = rng.below(6);
+            let table: Vec<Vec<u8>> = (0..n)
+                .map(|i| {
+                    let next = if i + 1 < n { sleb_i64((i + 1) as i64) } else { sleb_i64(*rng.pick(&[-1i64, -4, -17, 0])) };
+                    match kind {
+                        0 => [vec![0x6c, 0x01, 0x00], next].concat(),                   // record { 0 : next }
+                        1 => [vec![0x6e], next].concat(),                                 // opt next
+                        2 => [vec![0x6d], next].concat(),                                 // vec next
+                        3 => [vec![0x6b, 0x02, 0x00, 0x7f, 0x01], next].concat(),         // variant { 0 : null; 1 : next }
+                        4 => [vec![0x6c, 0x02, 0x00], next.clone(), vec![0x01], next].concat(), // record { next; next }
+                        _ => [vec![0x6a, 0x01], next, vec![0x00, 0x00]].concat(),         // func (next) -> ()
+                    }
+                })
+                .collect();
+            let nargs = rng.usize(3);
+            let args: Vec<i64> = (0..nargs).map(|_| rng.usize(n) as i64).collect();
+            let vals = {
+                let k = rng.usize(24);
+                rng.bytes(k)
+            };
+            (msg(&table, &args, &vals), "table-chain", 1)
+        }
+        _ => {
+            // the same chain with zero-filled values (every option absent / every vector empty)
+            let n = *rng.pick(&[200usize, 2000, 9_999]);
+            let table: Vec<Vec<u8>> = (0..n)
+                .map(|i| {
+                    let next = if i + 1 < n { sleb_i64((i + 1) as i64) } else { vec![0x7f] };
+                    if i % 2 == 0 {
+                        [vec![0x6c, 0x02, 0x00], next, vec![0x01, 0x7f]].concat()
+                    } else {
+                        [vec![0x6e], next].concat()
+                    }
+                })
+                .collect();
+            (msg(&table, &[0], &vec![0u8; 8]), "table-chain:values", 1)
+        }
+    }
+}
+
 pub fn run(ctx: &mut Ctx) {
     let n_types = reg::len();
     let tcfg = TypeCfg::default();
@@ -244,7 +334,7 @@ pub fn run(ctx: &mut Ctx) {
             _ => Target::NoType,
         }
     };
-    ctx.cases("mutated-native-messages", 0.3, |ctx, rng| {
+    ctx.cases("mutated-native-messages", 0.25, |ctx, rng| {
         let i = rng.usize(n_types);
         let nargs = 1 + rng.usize(2);
         let mut r2 = Rng::new(rng.next());
@@ -271,7 +361,7 @@ pub fn run(ctx: &mut Ctx) {
         judge(ctx, "mutated-wire", &target, &bad, &conf);
         ctx.nontrivial(hash_str(&format!("{}|w", error_site(&bad))));
     });
-    ctx.cases("crafted-bombs", 0.3, |ctx, rng| {
+    ctx.cases("crafted-bombs", 0.25, |ctx, rng| {
         let (bytes, fam) = hostile::crafted(rng);
         let target = pick_target(rng, &tcfg);
         let mut conf = gen_conf(rng);
@@ -282,6 +372,29 @@ pub fn run(ctx: &mut Ctx) {
         judge(ctx, fam, &target, &bytes, &conf);
         ctx.count(&format!("cover:crafted:{fam}"));
         ctx.nontrivial(hash_bytes(&bytes[..bytes.len().min(64)]) ^ hash_str(fam));
+    });
+    ctx.cases("crafted-boundaries-and-chains", 0.1, |ctx, rng| {
+        let (bytes, fam, aim) = crafted2(rng);
+        // aim 0: the primitive-vector path needs the same primitive on both sides (no expected type, or the exact native
+        // vector); aim 1: header parsing, any target
+        let target = if aim == 0 && rng.chance(2, 3) {
+            if rng.bool() {
+                Target::NoType
+            } else {
+                let name = *rng.pick(&["Vec<u8>", "Vec<u16>", "Vec<u32>", "Vec<u64>", "Vec<i64>", "Vec<f64>", "Vec<i16>", "Vec<f32>", "Vec<bool>", "Option<Vec<u64>>"]);
+                (0..n_types).find(|i| reg::with(*i, |t| t.name()) == name).map(Target::Native).unwrap_or(Target::NoType)
+            }
+        } else {
+            pick_target(rng, &tcfg)
+        };
+        let mut conf = gen_conf(rng);
+        if aim == 0 && rng.bool() {
+            conf.dq = None; // the length checks must hold without the quota as a backstop
+        }
+        judge(ctx, fam, &target, &bytes, &conf);
+        ctx.count(&format!("cover:crafted:{fam}"));
+        ctx.count(&format!("cover:stack:{}K", conf.stack >> 10));
+        ctx.nontrivial(hash_bytes(&bytes[..bytes.len().min(48)]) ^ hash_str(fam) ^ (bytes.len() as u64));
     });
     ctx.cases("pending-args-times-optionals", 0.05, |ctx, rng| {
         // table [opt nat8, vec #0]; args = [vec, M x null]; N present optional elements
